@@ -96,6 +96,72 @@ def rule_ag_init(cx, rep, port):
     rep.decide(len(rets) == 1 and is_name(rets[0].value, tok[0].targets[0].id), 'result', rets[0] if rets else fd, 'returns the token', 'init_aggregator does not return the token')
 
 
+def _stage1_columns(rep, lp, res, key_name, iff):
+    """per output column (= per path through the body of the stage-1 loop): a token column appends the aggregator registered under
+    the token's marker_id and feeds it the token's value; any other column appends ConstGroupVerifier(current column index) and
+    feeds it the value itself.  Decided on path summaries, so temporaries, merged tails and `aggregators[-1]` are the same thing."""
+    from .. import pathsem
+    body = lp.body
+    ps = pathsem.paths_of_block(body)
+    if ps is None:
+        rep.undecided('stage 1 columns', lp, 'column loop body is not straight-line code')
+        return
+
+    def txt(e):
+        return node_text(res(e), 400).replace(' ', '')
+    n_tok = n_plain = 0
+    for q in ps:
+        if q.kind != 'fall':
+            continue
+        tok = None
+        colv = None
+        for atom, pol in pathsem.atoms(q.conds):
+            if isinstance(atom, ast.Call) and dotted(atom.func) == 'isinstance' and len(atom.args) == 2 and dotted(atom.args[1]) == 'RBQLAggregationToken':
+                tok, colv = pol, node_text(atom.args[0]).replace(' ', '')
+        if tok is None:
+            rep.undecided('stage 1 token test', lp, 'a path through the column loop does not classify the column by isinstance(value, RBQLAggregationToken)')
+            return
+        apps = [c for c in q.calls if isinstance(c, ast.Call) and isinstance(c.func, ast.Attribute) and c.func.attr in ('append', 'push') and txt(c.func.value).endswith('.aggregators')]
+        incs = [c for c in q.calls if isinstance(c, ast.Call) and isinstance(c.func, ast.Attribute) and c.func.attr == 'increment']
+        if len(apps) != 1:
+            rep.violated('stage 1 columns', lp, 'a {} column appends {} aggregators/verifiers (must be exactly one per output column)'.format('token' if tok else 'plain', len(apps)))
+            return
+        a0 = txt(apps[0].args[0]) if apps[0].args else ''
+        if tok:
+            n_tok += 1
+            if 'functional_aggregators[' not in a0:
+                rep.violated('stage 1 columns', lp, 'a token column does not get its registered aggregator (`{}`)'.format(a0[:80]))
+                return
+            if not a0.endswith('[{}.marker_id]'.format(colv)):
+                rep.violated('stage 1 token lookup', lp, 'the aggregator of a token is not looked up by its marker_id (`{}`): columns get each other\'s aggregators'.format(a0[:80]))
+                return
+            want_val = colv + '.value'
+        else:
+            n_plain += 1
+            ok_v = a0.startswith('ConstGroupVerifier(len(') and a0.endswith('.aggregators))')
+            if 'ConstGroupVerifier(' not in a0:
+                rep.violated('stage 1 columns', lp, 'a plain column does not get a constant-group verifier (`{}`)'.format(a0[:80]))
+                return
+            if not ok_v:
+                rep.violated('stage 1 verifier index', lp, 'the constant-group verifier is created with `{}` instead of the current column index'.format(a0[:80]))
+                return
+            want_val = colv
+        if len(incs) != 1:
+            rep.violated('stage 1 first record', lp, 'a {} column feeds the first record {} times to its aggregator'.format('token' if tok else 'plain', len(incs)))
+            return
+        i0 = incs[0]
+        recv = txt(i0.func.value)
+        recv_ok = recv == a0 or recv.endswith('.aggregators[-1]') or ('.aggregators[len(' in recv and recv.endswith('-1]'))
+        args = [txt(a) for a in i0.args]
+        if not (len(args) == 2 and args[0] == key_name and args[1] == want_val and recv_ok):
+            rep.violated('stage 1 first record', lp, 'the first record of the query is not fed to the column\'s own aggregator under the group key with the {} (`{}.increment({})`)'.format('token value' if tok else 'plain value', recv[:60], ', '.join(args)))
+            return
+    if n_tok and n_plain:
+        rep.holds('stage 1 columns', lp, 'every output column gets either its registered aggregator (by marker_id) or a constant-group verifier with its column index, and is fed the first record')
+    else:
+        rep.undecided('stage 1 columns', lp, 'token / plain column paths not both found')
+
+
 def rule_ag_stage(cx, rep, port):
     """select_aggregated: stage 1 appends one aggregator/verifier per output column in column order, then stage := 2;
     stage 2 increments aggregators[i] with value i; the key is added to the key set in both stages"""
@@ -146,29 +212,7 @@ def rule_ag_stage(cx, rep, port):
         rep.undecided('stage 1 loop', iff, 'column loop not recognised')
     else:
         lp = loops[0]
-        apps = [res(c) for c in ast.walk(lp) if isinstance(c, ast.Call) and isinstance(c.func, ast.Attribute) and c.func.attr in ('append', 'push') and node_text(res(c.func.value), 300).endswith('.aggregators')]
-        tok_arm = [c for c in apps if 'functional_aggregators' in node_text(c)]
-        ver_arm = [c for c in apps if 'ConstGroupVerifier' in node_text(c)]
-        rep.decide(len(apps) == 2 and len(tok_arm) == 1 and len(ver_arm) == 1, 'stage 1 columns', lp, 'every output column gets either its registered aggregator or a constant-group verifier', 'stage 1 does not append exactly one aggregator or verifier per output column')
-        if tok_arm:
-            ok_idx = 'marker_id' in node_text(tok_arm[0])
-            rep.decide(ok_idx, 'stage 1 token lookup', tok_arm[0], 'aggregator looked up by the token\'s marker_id', 'the aggregator of a token is not looked up by its marker_id: columns get each other\'s aggregators')
-        if ver_arm:
-            a = ver_arm[0].args[0]
-            arg = a.args[0] if isinstance(a, ast.Call) and a.args else None
-            ok_v = isinstance(arg, ast.Call) and dotted(arg.func) == 'len' and node_text(res(arg.args[0]), 300).endswith('.aggregators')
-            rep.decide(ok_v, 'stage 1 verifier index', ver_arm[0], 'verifier knows its output column index', 'the constant-group verifier is created with the wrong column index')
-        incs = [c for c in ast.walk(lp) if isinstance(c, ast.Call) and isinstance(c.func, ast.Attribute) and c.func.attr == 'increment']
-        ok_inc = len(incs) == 2 and all(is_name(c.args[0], key_name) for c in incs)
-        vals = sorted(node_text(res(c.args[1])) for c in incs) if len(incs) == 2 else []
-        col_value = None
-        for c in incs:
-            t_ = node_text(res(c.args[1]))
-            if t_.endswith('.value') and (col_value is None):
-                col_value = t_[:-len('.value')]
-        rep.decide(ok_inc and col_value is not None and vals == sorted([col_value, col_value + '.value']), 'stage 1 first record', incs[0] if incs else lp, 'the first record is accumulated too (token value / plain value)', 'the first record of the query is not fed to the aggregators in stage 1 (or with the wrong value)')
-        is_tok = [n for n in ast.walk(lp) if isinstance(n, ast.If) and 'RBQLAggregationToken' in node_text(n.test)]
-        rep.decide(len(is_tok) == 1, 'stage 1 token test', is_tok[0] if is_tok else lp, 'columns are classified by isinstance(value, RBQLAggregationToken)', 'columns are not classified by "is an aggregation token"')
+        _stage1_columns(rep, lp, res, key_name, iff)
     chk = [n for n in s1 if isinstance(n, ast.If) and 'num_aggregators_found' in node_text(n.test)]
     okc = len(chk) == 1 and isinstance(chk[0].test, ast.Compare) and isinstance(chk[0].test.ops[0], ast.NotEq) and 'RbqlParsingError' in node_text(chk[0].body[-1])
     rep.decide(okc, 'stage 1 nested aggregate check', chk[0] if chk else iff, 'aggregates hidden inside expressions are a parsing error', 'an aggregate nested inside an expression is not detected (token count != registered aggregators)')
